@@ -226,8 +226,11 @@ func init() {
 	All["C10"].Run = func(c *an.Ctx) {
 		old(c)
 		c10cacheKey(c)
+		c10scanToEndOfPrefix(c)
+		c10absentTagNegative(c)
 	}
-	All["C10"].Rules += " R5"
+	All["C10"].Rules += " R5 R6 R7"
+	addLevel("C10", "the row scan of a tag filter ends (successfully) only when the rows leave the filter's key prefix — never at the first non-matching value, escaped values sort before the plain value; a negative filter on a non-empty value selects a series that does not have the tag (the prune path agrees with the index path).")
 }
 
 // c10cacheKey — C10.R5.  The tag-filter cache maps the marshalled predicate to the matching
@@ -309,4 +312,61 @@ func c10cacheKey(c *an.Ctx) {
 	}
 	r.AddSites(n)
 	r.Floor(2, "tag-filter cache stores")
+}
+
+// c10scanToEndOfPrefix — C10.R6.  The rows of one tag key are sorted by the ESCAPED value bytes:
+// a value that continues with one of the separator bytes is escaped to start with 0x00 and sorts
+// BEFORE the plain value.  So a scan for `tag = 'v'` may meet non-matching rows before the
+// matching one; the only sound place to stop successfully is the end of the key prefix.
+func c10scanToEndOfPrefix(c *an.Ctx) {
+	const T = "engine/index/tsi"
+	r := c.Rule("C10.R6", "K-GUARD", T+":(*indexSearch).getTSIDsForTagFilterSlow — the scan returns success from inside its row loop only when the row left the filter's prefix")
+	f := fn(r, T+":indexSearch.getTSIDsForTagFilterSlow")
+	if f == nil {
+		return
+	}
+	var early []an.Site
+	for _, s := range f.Find(an.ReturnsNilErr()).List {
+		if f.LoopBodyEntry(s) >= 0 {
+			early = append(early, s)
+		}
+	}
+	r.AddSites(len(early))
+	if len(early) == 0 {
+		r.Fail(f.Name+": end of range", c.P.Pos(f.Body.Pos()), "the row loop has no successful exit at the end of the prefix range any more")
+		return
+	}
+	f.Guarded(r, &an.Sites{F: f, Desc: "return nil inside the row loop", List: early}, "the scan ends successfully only at the end of the key prefix", an.AtomLike(`^bytes\.HasPrefix\(.*\)$`, false))
+}
+
+// c10absentTagNegative — C10.R7.  `tag != 'x'` is true for a series that has no such tag (its value
+// is the empty string).  The series-key matcher of the prune path decides the absent-tag case by
+// matching the filter value against "" and then applying the negation — the same two steps as for a
+// present tag; folding them into one expression must keep `negative ∧ non-empty value ⇒ selected`.
+func c10absentTagNegative(c *an.Ctx) {
+	const T = "engine/index/tsi"
+	r := c.Rule("C10.R7", "K-SIBLING", T+":matchSeriesKeyTagFilter — the absent-tag case matches the filter value against the empty string and applies the negation, like the present-tag case")
+	f := fn(r, T+":matchSeriesKeyTagFilter")
+	if f == nil {
+		return
+	}
+	// calls of the plain matcher with the empty string as the tag value
+	n := 0
+	ast.Inspect(f.Body, func(m ast.Node) bool {
+		ce, ok := m.(*ast.CallExpr)
+		if !ok || len(ce.Args) != 2 {
+			return true
+		}
+		if id, ok := ce.Fun.(*ast.Ident); !ok || id.Name != "matchWithNoRegex" {
+			return true
+		}
+		if tv, ok := f.Info.Types[ce.Args[1]]; ok && tv.Value != nil && tv.Value.String() == `""` {
+			n++
+		}
+		return true
+	})
+	r.AddSites(n)
+	if n == 0 {
+		r.Fail(f.Name+": absent tag", c.P.Pos(f.Body.Pos()), "matchSeriesKeyTagFilter no longer matches a plain filter's value against the empty string when the series lacks the tag: `tag != 'x'` is not selected for such a series (the index path selects it)")
+	}
 }
